@@ -33,7 +33,8 @@ REQUIRED_COUNTERS = (
     ["families", "values.accepted", "values.rejected", "child_vs_flat.compared", "json.compared",
      "isinstance.checked", "parent.snapshots", "childop.define", "childop.validate", "childop.prop_add",
      "childop.prop_del", "childop.prop_flip_required", "childop.class_kw", "prop.added", "prop.overridden",
-     "falsy_override", "depth.3plus", "parent_reconfigured_before_subclassing"]
+     "falsy_override", "depth.3plus", "parent_reconfigured_before_subclassing",
+     "grandparent_reconfigured_after_parent_exists"]
     + [f"inherit.{k}" for k in CLASS_KWS] + [f"override.{k}" for k in CLASS_KWS]
 )
 FALSY = {
@@ -158,60 +159,75 @@ def check_parent(ctx, before, sut, monitors, parent, values, op, case):
     return True
 
 
+def eff_spec(chain, eff, level):
+    """The single class equivalent to class `level` as the documented rule makes it: inheritance copies
+    the parent's merged configuration AT THE MOMENT the subclass is defined; later changes of an
+    ancestor do not propagate."""
+    kw, props = eff[level]
+    return {"t": "Object", "name": chain[level]["name"], "kw": copy.deepcopy(kw),
+            "props": copy.deepcopy(props), "base": None, "id": 5000 + level}
+
+
 def run_family(ctx, sut, monitors, fpm, rng, chain):
     case = {"chain": chain}
     index = {c["id"]: c for c in chain}
+    eff = []  # per level: (merged class keywords, merged properties) as of now
+    history = []
+    case["reconfigurations"] = history
     try:
         classes = []
         memo = {"__index__": index}
         parent_obs = []
         for level, node in enumerate(chain):
-            if level and rng.random() < 0.35:
-                # define parent -> reconfigure parent -> define child: the child inherits the parent's
-                # CURRENT properties (mirrored in the parent's spec, so the flat class expects them too)
-                parent_cls, parent_node = classes[level - 1], chain[level - 1]
+            if level and rng.random() < 0.4:
+                # define ancestors -> reconfigure one of them -> define the next class
+                target = rng.choice([level - 1, level - 1, rng.randrange(level)])
+                anc_cls = classes[target]
+                kw_t, props_t = eff[target]
                 gen0 = gen_dsl.Gen(rng, max_depth=0, classes=False, share=0.0)
                 op = rng.choice(["add", "replace", "delete"])
                 try:
-                    if op == "add" or not parent_node["props"]:
-                        name = rng.choice([n for n in gen_dsl.PY_NAMES if n not in parent_node["props"]] or ["zzz"])
+                    if op == "add" or not props_t:
+                        name = rng.choice([n for n in gen_dsl.PY_NAMES if n not in props_t] or ["zzz"])
                         pspec = {"el": gen0.spec(0), "required": rng.random() < 0.5, "source": None}
-                        parent_node["props"][name] = pspec
-                        parent_cls.properties[name] = sut.Property(gen_dsl.build(pspec["el"]), required=pspec["required"])
+                        props_t[name] = pspec
+                        anc_cls.properties[name] = sut.Property(gen_dsl.build(pspec["el"]), required=pspec["required"])
                     elif op == "replace":
-                        name = rng.choice(sorted(parent_node["props"]))
+                        name = rng.choice(sorted(props_t))
                         pspec = {"el": gen0.spec(0), "required": rng.random() < 0.5,
-                                 "source": parent_node["props"][name].get("source")}
-                        parent_node["props"][name] = pspec
-                        parent_cls.properties[name] = sut.Property(
+                                 "source": props_t[name].get("source")}
+                        props_t[name] = pspec
+                        anc_cls.properties[name] = sut.Property(
                             gen_dsl.build(pspec["el"]), required=pspec["required"], source=pspec["source"])
                     else:
-                        # deleting an OWN property that overrides an inherited one removes the name from
-                        # the live class altogether, whereas in the mirrored spec the inherited declaration
-                        # would shine through again: only names no ancestor declares are deleted
-                        inherited = gen_dsl.effective_class(chain[level - 2], index)[1] if level >= 2 else {}
-                        candidates = [n for n in sorted(parent_node["props"]) if n not in inherited]
-                        if not candidates:
-                            raise LookupError("nothing deletable")
-                        name = rng.choice(candidates)
-                        del parent_node["props"][name]
-                        del parent_cls.properties[name]
+                        name = rng.choice(sorted(props_t))  # own or inherited: gone from this class
+                        del props_t[name]
+                        del anc_cls.properties[name]
+                    history.append([f"before defining L{level}", f"{op} {name} on L{target}"])
                     ctx.count("parent_reconfigured_before_subclassing")
-                    # the observation of that parent starts from its new configuration
-                    schema = gen_dsl.to_schema(parent_node, index)
+                    if target < level - 1:
+                        ctx.count("grandparent_reconfigured_after_parent_exists")
+                    # the observation of that class starts from its new configuration
+                    flat_now = eff_spec(chain, eff, target)
+                    schema = gen_dsl.to_schema(flat_now, gen_dsl.index_specs(flat_now))
                     values = gv.batch_for_schema(rng, schema, schema, count=6)
-                    parent_obs[level - 1] = {"values": values,
-                                             "obs": parent_observation(sut, monitors, parent_cls, values)}
+                    parent_obs[target] = {"values": values,
+                                          "obs": parent_observation(sut, monitors, anc_cls, values)}
                 except Exception as exc:  # pylint: disable=broad-except
                     ctx.count("parent_reconfig_refused." + type(exc).__name__)
             cls = gen_dsl.build(node, memo)
             classes.append(cls)
+            kw_parent, props_parent = eff[level - 1] if level else ({}, {})
+            kw_here = {**copy.deepcopy(kw_parent), **copy.deepcopy(node.get("kw", {}))}
+            props_here = {**copy.deepcopy(props_parent), **copy.deepcopy(node.get("props", {}))}
+            eff.append((kw_here, props_here))
             # isolation of all ancestors when a child is *defined*
             for anc_level, obs in enumerate(parent_obs):
                 ctx.count("childop.define")
                 check_parent(ctx, obs["obs"], sut, monitors, classes[anc_level], obs["values"],
                              f"define L{level}", case)
-            schema = gen_dsl.to_schema(node, index)
+            flat_now = eff_spec(chain, eff, level)
+            schema = gen_dsl.to_schema(flat_now, gen_dsl.index_specs(flat_now))
             values = gv.batch_for_schema(rng, schema, schema, count=6)
             parent_obs.append({"values": values,
                                "obs": parent_observation(sut, monitors, cls, values)})
@@ -222,13 +238,13 @@ def run_family(ctx, sut, monitors, fpm, rng, chain):
     accepted = rejected = 0
     for level in range(1, len(chain)):
         child = classes[level]
-        flat_s = flat_spec(chain, level)
+        flat_s = eff_spec(chain, eff, level)
         try:
             flat = gen_dsl.build(flat_s, {"__index__": gen_dsl.index_specs(flat_s)})
         except Exception as exc:  # pylint: disable=broad-except
             ctx.count("flat_build_failed." + type(exc).__name__)
             continue
-        schema = gen_dsl.to_schema(chain[level], index)
+        schema = gen_dsl.to_schema(flat_s, gen_dsl.index_specs(flat_s))
         values = gv.batch_for_schema(rng, schema, schema, count=ctx.params["values"])
         for value in values:
             ctx.evaluation()
